@@ -498,13 +498,22 @@ def search(ctx, disagreements, proof_info):
     co-simulation, (2) disagreement traces replayed with the monitor armed, (3) AXI-legal random runs (inside the
     theorem's domain) of small and realistic instances."""
     deadline = time.time() + (60 if ctx.tier == "quick" else 600)
+    all_jobs = getattr(ctx, "jobs", None) or jobs(ctx.tier, ctx.seed)
     for d in disagreements:
         kind = getattr(d, "kind", None) or (d.get("kind") if isinstance(d, dict) else "")
         if kind.startswith("monitor:"):
             if isinstance(d, dict):
                 return dict(d, letter_format=FMT)
-            return {"instance": d.inst_name, "trace": [list(l) for l in d.trace], "monitor": kind[8:], "letter_format": FMT}
-    all_jobs = getattr(ctx, "jobs", None) or jobs(ctx.tier, ctx.seed)
+            spec = None
+            try:
+                if getattr(d, "inst", None) is not None:
+                    spec = _spec_of(d.inst)
+                elif getattr(d, "job", None) is not None:
+                    spec = _spec_of(all_jobs[d.job].make())
+            except Exception:
+                spec = None
+            return {"instance": d.inst_name, "make": spec, "trace": [list(l) for l in d.trace], "monitor": kind[8:],
+                    "letter_format": FMT}
     for d in disagreements:
         if isinstance(d, dict) or getattr(d, "job", None) is None:
             continue
